@@ -51,6 +51,8 @@ QUERIES = ('geos_over_budget', 'geos_too_large', 'geos_must_include',
            'geos_within_constraints', 'geo_assignments', 'size_range', 'count')
 ROW_TYPES = {'ctx': (1, 1, 1), 'ct': (1, 1, 0), 'c': (1, 0, 0), 't': (0, 1, 0),
              'x': (0, 0, 1), 'cx': (1, 0, 1), 'tx': (0, 1, 1)}
+MODULES = ('geoeligibility', 'tbrmatchedmarkets', 'tbrmmdata',
+           'tbrmmdesignparameters', 'heapdict')
 INTERRUPTIBLE = ('q', 'dwc', 'list_t', 'list_c', 'step', 'exhaustive',
                  'greedy', 'results')
 
@@ -81,13 +83,17 @@ def _gen_panel(rng, tier, profile):
     trend.append(v)
   noise = rng.choice((0.005, 0.02, 0.02, 0.1))
   degenerate = rng.random() < 0.06
+  # heterogeneous noise: the ranking of geos by required impact then differs
+  # from their ranking by volume
+  hetero = rng.random() < 0.5
   values = []
   for g in range(n_geos):
     size = math.exp(rng.gauss(0, 0.8)) * 3
     if degenerate and g == 0:
       values.append([round(size, 3)] * n_dates)   # a constant geo
       continue
-    values.append([round(size * t * (1 + rng.gauss(0, noise)) +
+    gn = noise * (rng.choice((0.2, 1.0, 5.0, 25.0)) if hetero else 1.0)
+    values.append([round(size * t * (1 + rng.gauss(0, gn)) +
                          rng.gauss(0, noise), 3) for t in trend])
   if rng.random() < 0.15 and n_geos >= 3:
     # twin geos: identical series, so distinct designs tie exactly in score
@@ -146,8 +152,8 @@ def _gen_par(rng, panel, profile):
     par['treatment_geos_range'] = rng.choice(([1, 2], [2, 3], [1, 1], [1, 4]))
   if maybe(0.3):
     par['control_geos_range'] = rng.choice(([1, 2], [2, 3], [1, 1], [1, 4]))
-  if maybe(0.2):
-    par['n_geos_max'] = rng.choice((2, 3, 4))
+  if maybe(0.3):
+    par['n_geos_max'] = rng.choice((2, 3, 3, 4))
   if maybe(0.4):
     par['n_pretest_max'] = rng.randrange(max(3, n_test + 3), n_dates + 5)
   if profile == 'c14':
@@ -289,13 +295,9 @@ class Env:
     import random as _random  # pylint: disable=g-import-not-at-top
     import numpy as np  # pylint: disable=g-import-not-at-top
     import pandas as pd  # pylint: disable=g-import-not-at-top
-    from matched_markets.methodology import geoeligibility  # pylint: disable=g-import-not-at-top
-    from matched_markets.methodology import tbrmatchedmarkets  # pylint: disable=g-import-not-at-top
-    from matched_markets.methodology import tbrmmdata  # pylint: disable=g-import-not-at-top
-    from matched_markets.methodology import tbrmmdesignparameters  # pylint: disable=g-import-not-at-top
     self.np, self.pd = np, pd
-    self.mods = (geoeligibility, tbrmatchedmarkets, tbrmmdata,
-                 tbrmmdesignparameters)
+    # one simulated run = one simulated process: modules re-executed
+    self.mods = tuple(core.fresh_modules(*MODULES))
     panel = desc['panel']
     as_int = panel.get('id_type') == 'int'
     geos = [int(g) if as_int else str(g) for g in panel['geos']]
@@ -333,15 +335,20 @@ class Env:
   def elig_frame(self):
     return None if self._elig0 is None else self._elig0.copy(deep=True)
 
-  def parameters(self):
-    return self.mods[3].TBRMMDesignParameters(**self._par_kwargs)
+  def parameters(self, mods=None):
+    return (mods or self.mods)[3].TBRMMDesignParameters(**self._par_kwargs)
 
-  def build(self):
+  def build_reference(self):
+    """A freshly built object in a freshly loaded, private module set."""
+    return self.build(tuple(core.reference_modules(*MODULES)))
+
+  def build(self, mods=None):
     """(mm, caller's frame, caller's table, caller's parameter object)."""
-    geoeligibility, tbrmatchedmarkets, tbrmmdata, _ = self.mods
+    mods = mods or self.mods
+    geoeligibility, tbrmatchedmarkets, tbrmmdata = mods[:3]
     df = self.frame()
     edf = self.elig_frame()
-    par = self.parameters()
+    par = self.parameters(mods)
     elig = None if edf is None else geoeligibility.GeoEligibility(edf)
     data = tbrmmdata.TBRMMData(df, 'response', elig)
     mm = tbrmatchedmarkets.TBRMatchedMarkets(data, par)
@@ -426,7 +433,6 @@ def _design_sort_key(d):
 # execution
 # --------------------------------------------------------------------------
 def execute(desc):
-  core.install_repo_path()
   env = Env(desc)
   np = env.np
   np.seterr(all='ignore')
@@ -467,7 +473,7 @@ def execute(desc):
     """canon(fn(fresh object)), memoised."""
     if key not in memo:
       def compute():
-        mm_f = env.build()[0]
+        mm_f = env.build_reference()[0]
         return _outcome(lambda: fn(mm_f))
       memo[key] = with_ref_rng(compute)
     return memo[key]
@@ -476,7 +482,7 @@ def execute(desc):
     k = 'lines:' + key
     if k not in memo:
       def compute():
-        mm_f = env.build()[0]
+        mm_f = env.build_reference()[0]
         return interrupter.run(lambda: fn(mm_f))[2]
       memo[k] = with_ref_rng(compute)
     return memo[k]
@@ -486,7 +492,7 @@ def execute(desc):
     k = 'listing:' + key
     if k not in memo:
       def compute():
-        mm_f = env.build()[0]
+        mm_f = env.build_reference()[0]
         out = []
         try:
           for g in _open(mm_f, res):
@@ -549,7 +555,7 @@ def execute(desc):
     return res
 
   # ---- C14: record the pushes of every bounded queue -----------------------
-  from matched_markets.methodology import heapdict as heapdict_mod  # pylint: disable=g-import-not-at-top
+  heapdict_mod = env.mods[4]
   pushes = []
   orig_push = heapdict_mod.HeapDict.push
   if focus == 'C14':
